@@ -426,6 +426,8 @@ def o_integrals_2d(spec, row, model=None):
     d0, d1 = spec["dims"]
     x0, x1 = row
     hi0 = float(M.dim_method(d0, "ppf", 1 - 1e-10))
+    if not math.isfinite(hi0) or hi0 > 1e4 or x0 > 1e3 or x1 > 1e3:
+        return "slow"          # so far out that adaptive quadrature (either side) is unreliable: not judged
     f0 = lambda t: float(M.dim_method(d0, "pdf", t))
     tol = lambda w: 2e-4 + 2e-3 * abs(w)
     out = []
@@ -452,16 +454,24 @@ def o_integrals_2d(spec, row, model=None):
 
 
 def o_mass_2d(spec, model=None):
+    """total mass: the joint cdf at a far corner is (close to) one and equals the independent 1-D integral there.
+    Corners so far out that adaptive quadrature is unreliable are not judged (numerical saturation)."""
     model = model or M.build_model(spec)
     d0, d1 = spec["dims"]
-    x0 = float(M.dim_method(d0, "ppf", 1 - 1e-7))
+    x0 = float(M.dim_method(d0, "ppf", 1 - 1e-5))
     gs = [float(M.dim_method(d0, "ppf", p)) for p in (0.001, 0.5, 0.999)]
-    x1 = max(float(M.dim_method(d1, "ppf", 1 - 1e-7, g if d1["cond"] is not None else None)) for g in gs)
+    x1 = max(float(M.dim_method(d1, "ppf", 1 - 1e-5, g if d1["cond"] is not None else None)) for g in gs)
+    if not (math.isfinite(x0) and math.isfinite(x1)) or x0 > 1e3 or x1 > 1e3:
+        return "slow"
+    want = quad1(lambda t: float(M.dim_method(d0, "pdf", t)) * float(M.dim_method(d1, "cdf", x1, t)), 0, x0,
+                 pts=[float(M.dim_method(d0, "ppf", 0.5))])
+    if want < 0.99:
+        return "slow"
     got = run_method(model, "cdf", [x0, x1])
     if slow(got):
         return "slow"
-    if isinstance(got, dict) or abs(got[0] - 1) > 2e-3:
-        return ({"clause": "mass", "method": "cdf"}, "cdf(%r) = %r: the density does not integrate to one" % ([x0, x1], got))
+    if isinstance(got, dict) or abs(got[0] - want) > 2e-3 or abs(got[0] - 1) > 1.2e-2:
+        return ({"clause": "mass", "method": "cdf"}, "cdf(%r) = %r: the density does not integrate to one (independent value there: %r)" % ([x0, x1], got, want))
     return None
 
 
@@ -496,6 +506,66 @@ def o_icdf_2d(ctx, spec, seed, model=None):
     return None, worst
 
 
+def o_integrand_semantics(spec, meth, dim, arg, seed, int_input=False):
+    """Any dimension, no real integration: with nquad replaced by the probing stub, every nquad variable must reach
+    pdf at ONE model position, and the range it is integrated over must be the one meant for that position
+    (cdf: (0, x_j) for position j; marginals: (0, inf) for the others, variable dim fixed to x / over (0, x)).
+    Equivalent re-orderings of the integration variables are accepted."""
+    import random
+    jm = _jm()
+    model = M.build_model(spec)
+    dlog, plog = instrument(model)
+    stub = NquadStub(random.Random(seed), plog)
+    n = len(spec["dims"])
+    saved = jm.integrate
+    jm.integrate = stub
+    try:
+        if int_input:
+            obj = np.array([[int(v) for v in arg]]) if meth == "cdf" else np.array([int(arg)])
+        else:
+            obj = [arg] if meth == "cdf" else np.array([arg], dtype=float)
+        res = run_method(model, meth, obj, dim)
+    finally:
+        jm.integrate = saved
+    if isinstance(res, dict):
+        return ({"clause": "integrand-order", "method": meth, "kind": "exception"}, "%s raised %s" % (meth, res["err"]))
+    if meth != "cdf" and spec["dims"][dim]["cond"] is None:
+        return None
+    if len(stub.calls) != 1:
+        return ({"clause": "integrand-order", "method": meth}, "%d nquad calls for one point" % len(stub.calls))
+    c = stub.calls[0]
+    if res[0] != c["ret"]:
+        if int_input:
+            return ({"clause": "int-dtype", "method": meth},
+                    "%s(np.array([%d]), %d) returns %r for integer-typed input, not the value of its integral (nquad stubbed to return %r)" % (
+                        meth, int(arg), dim, res[0], c["ret"]))
+        return ({"clause": "integrand-order", "method": meth}, "%s returns %r, not the value of its integral %r" % (meth, res[0], c["ret"]))
+    for p in c["probes"]:
+        vals = list(p["a"]) + list(c["args"])
+        row = p["row"]
+        if p["err"] or row is None or len(row) != n or sorted(row) != sorted(vals):
+            return ({"clause": "integrand-order", "method": meth},
+                    "%s(%r%s): integrand called with %r hands pdf %r (%s)" % (meth, arg, "" if meth == "cdf" else ", %d" % dim, vals, row, p["err"]))
+        for k, v in enumerate(vals):
+            pos = row.index(v)
+            if k < len(c["ranges"]):
+                rg = c["ranges"][k]
+                if meth == "cdf":
+                    want = (0.0, float(arg[pos]))
+                elif pos == dim:
+                    want = (0.0, float(arg)) if meth == "marginal_cdf" else None
+                else:
+                    want = (0.0, float("inf"))
+                if want is None or tuple(rg) != want:
+                    return ({"clause": "integrand-order", "method": meth},
+                            "%s(%r%s): model variable %d is integrated over %r, expected %r" % (
+                                meth, arg, "" if meth == "cdf" else ", %d" % dim, pos, tuple(rg), want))
+            elif not (meth == "marginal_pdf" and pos == dim and v == float(arg)):
+                return ({"clause": "integrand-order", "method": meth},
+                        "%s(%r, %d): the fixed value reaches pdf at position %d, not %d" % (meth, arg, dim, pos, dim))
+    return None
+
+
 def simple_2d_spec():
     """the smallest interesting model (used to restate a dtype finding on a minimal input)"""
     return {"dims": [{"fam": "W", "cond": None, "params": {"alpha": ["val", 2.0], "beta": ["val", 1.5], "gamma": ["val", 0.0]}},
@@ -511,6 +581,8 @@ def replay(ctx, rp):
         o = o_int_pdf(spec, rp["rows"])
     elif kind == "int_marginal":
         o = o_int_marginal(spec, rp["dim"], rp["xs"], rp["method"])
+    elif kind == "integrand":
+        o = o_integrand_semantics(spec, rp["method"], rp["dim"], rp["arg"], rp["seed"], rp.get("int_input", False))
     elif kind == "integrals_2d":
         o = o_integrals_2d(spec, rp["row"])
     elif kind == "mass_2d":
@@ -529,7 +601,7 @@ def run(ctx):
     jm = _jm()
     ctx.proof_gate()
     rng = ctx.rng
-    nmodels = ctx.n(160, 1600)
+    nmodels = ctx.n(160, 1200)
     specs = []
     for i in range(nmodels):
         nd = 4 if i % 16 == 15 else None          # a few 4-D models exercise more argument orders (stub only)
@@ -634,7 +706,7 @@ def run(ctx):
                 report(o_product(sp, m["rows"]), {"oracle": "product", "spec": sp, "rows": m["rows"]})
         elif m["method"] in ("marginal_pdf", "marginal_cdf") and m["form"].endswith("_int") and len(sp["dims"]) == 2 \
                 and sp["dims"][m["dim"]]["cond"] is not None:
-            report(o_int_marginal(sp, m["dim"], m["xs"], m["method"]),
+            report(o_int_marginal(sp, m["dim"], m["xs"], m["method"], limited(sp, 20)),
                    {"oracle": "int_marginal", "spec": sp, "dim": m["dim"], "xs": m["xs"], "method": m["method"]})
     # (2) the stream: product / non-negativity / input forms on every model, integer inputs on every model
     nprod = nint = 0
@@ -648,6 +720,27 @@ def run(ctx):
         irows = make_rows(rng, sp, 2, integers=True)
         nint += 1
         report(o_int_pdf(sp, irows, model), {"oracle": "int_pdf", "spec": sp, "rows": irows})
+    # (2b) what the integrands hand to pdf and over which range each model variable runs (probing stub, any dimension)
+    nsem = 0
+    for sp in specs:
+        if len(sp["dims"]) < 3 and nsem > 40:
+            continue
+        n = len(sp["dims"])
+        row = make_rows(rng, sp, 1)[0]
+        if len(set(row)) < n:
+            continue
+        for meth, dim, arg in [("cdf", None, row)] + [(m, d, row[d]) for d in range(n) for m in ("marginal_pdf", "marginal_cdf")]:
+            seed = rng.randrange(2 ** 31)
+            nsem += 1
+            report(o_integrand_semantics(sp, meth, dim, arg, seed), {"oracle": "integrand", "spec": sp, "method": meth, "dim": dim, "arg": arg, "seed": seed})
+        irow = make_rows(rng, sp, 1, integers=True)[0]
+        if len(set(irow)) == n:
+            for meth, dim, arg in [("cdf", None, irow)] + [(m, d, irow[d]) for d in range(n) for m in ("marginal_pdf", "marginal_cdf")]:
+                seed = rng.randrange(2 ** 31)
+                nsem += 1
+                report(o_integrand_semantics(sp, meth, dim, arg, seed, True),
+                       {"oracle": "integrand", "spec": sp, "method": meth, "dim": dim, "arg": arg, "seed": seed, "int_input": True})
+    ctx.cov["evaluations"] += nsem
     # minimal restatement of the dtype clause (the documented example shape: model.pdf([3, 7]))
     s0 = simple_2d_spec()
     report(o_int_pdf(s0, [[3.0, 7.0]]), {"oracle": "int_pdf", "spec": s0, "rows": [[3.0, 7.0]]})
@@ -682,7 +775,7 @@ def run(ctx):
         o, worst = o_icdf_2d(ctx, sp, seed)
         worst_icdf = worst if worst_icdf is None else max(worst_icdf, worst or 0)
         report(o, {"oracle": "icdf_2d", "spec": sp, "seed": seed})
-    ctx.notes["search"] = {"product_oracle_models": nprod, "int_vs_float_models": nint, "real_nquad_2d_models": nquad_checked, "real_nquad_skipped_for_time": skipped, "unjudged_slow_nquad_calls": unjudged["slow_nquad"],
+    ctx.notes["search"] = {"product_oracle_models": nprod, "int_vs_float_models": nint, "integrand_semantics_calls": nsem, "real_nquad_2d_models": nquad_checked, "real_nquad_skipped_for_time": skipped, "unjudged_slow_or_saturated_nquad_calls": unjudged["slow_nquad"],
                            "marginal_icdf_worst_|F(x_p)-p|": worst_icdf,
                            "3-D real nquad": "not run (one call takes minutes); 3-D/4-D integrands are checked through the probing stub"}
     ctx.cov["rule"] = ("random 2-D/3-D (a few 4-D) hierarchical models over Weibull / log-normal / log-normal(norm-fit) / exponentiated Weibull / "
